@@ -1,4 +1,6 @@
 """C19 — sight click counts are the angular correction divided by the click value."""
+import copy
+
 from vlib.common import Corr, Failure, f2b, import_repo
 from vlib import shotgen as sg
 
@@ -110,6 +112,22 @@ def correspondence(chk, drv):
             ca.add(f'sight_adj {s.focal_plane} {f2b(s.scale_factor.raw_value)} {f2b(s.h_click_size.raw_value)} '
                    f'{f2b(s.v_click_size.raw_value)} {f2b(td.raw_value)} {f2b(drop.raw_value)} {f2b(wind.raw_value)} {f2b(mag)}',
                    'f%d f%d' % (f2b(r.vertical), f2b(r.horizontal)), str(s))
+        # a long-lived sight: re-tuned through its public fields (or copied and re-tuned), then asked again at the SAME distance and
+        # magnification — the model is stateless and receives the raw values read at call time
+        if rng.random() < 0.5:
+            t = copy.copy(s) if rng.random() < 0.3 else s
+            which = rng.randrange(1, 8)
+            if which & 1:
+                t.v_click_size = rng.choice(AU[:5])(rng.uniform(0.05, 1.0))
+            if which & 2:
+                t.h_click_size = rng.choice(AU[:5])(rng.uniform(0.05, 1.0))
+            if which & 4:
+                t.scale_factor = rng.choice(DU)(rng.uniform(20, 400))
+            for q in ([s, t] if t is not s else [s]):
+                r = q.get_adjustment(td, drop, wind, mag)
+                ca.add(f'sight_adj {q.focal_plane} {f2b(q.scale_factor.raw_value)} {f2b(q.h_click_size.raw_value)} '
+                       f'{f2b(q.v_click_size.raw_value)} {f2b(td.raw_value)} {f2b(drop.raw_value)} {f2b(wind.raw_value)} {f2b(mag)}',
+                       'f%d f%d' % (f2b(r.vertical), f2b(r.horizontal)), 're-tuned ' + str(q))
     pbc.PreferredUnits.defaults()
     for c in (cn, ca):
         r = c.finish(drv)
@@ -155,13 +173,24 @@ def search(chk, broken):
         else:
             r = s.get_adjustment(td, drop, wind, mag)
         evals += 1
+        retuned = ''
+        if rng.random() < 0.35:
+            # the same sight re-tuned through its public fields after it has answered once, asked again at the same distance and
+            # magnification (the answer must follow the values the sight holds NOW)
+            h, v = rng.choice(AU)(rng.uniform(0.05, 1)), rng.choice(AU)(rng.uniform(0.05, 1))
+            cal = rng.choice(DU)(rng.uniform(50, 300))
+            s.h_click_size, s.v_click_size, s.scale_factor = h, v, cal
+            cal_raw, hr, vr = cal.raw_value, h.raw_value, v.raw_value
+            r = s.get_adjustment(td, drop, wind, mag)
+            retuned = ' (asked once, re-tuned through its fields, asked again)'
+            evals += 1
         k_eff = {'FFP': 1.0, 'SFP': cal_raw / td.raw_value * mag, 'LWIR': 1.0 / mag}[fp]
         ev, eh = drop.raw_value / (vr * k_eff), wind.raw_value / (hr * k_eff)
         if abs(r.vertical - ev) > 1e-9 * abs(ev) + 1e-300 or abs(r.horizontal - eh) > 1e-9 * abs(eh) + 1e-300:
             chk.failures.append(Failure(f'clicks:{fp}',
-                                        f'{fp} sight h_click={h} v_click={v} calibration={cal} target={td} mag={mag:.3f}: '
+                                        f'{fp} sight{retuned} h_click={h} v_click={v} calibration={cal} target={td} mag={mag:.3f}: '
                                         f'clicks ({r.vertical:.6f}, {r.horizontal:.6f}) expected ({ev:.6f}, {eh:.6f})',
-                                        {'op': 'clicks', 'fp': fp, 'h_click_rad': hr, 'v_click_rad': vr, 'cal_in': cal.raw_value,
+                                        {'op': 'clicks', 'fp': fp, 'history': retuned.strip(), 'h_click_rad': hr, 'v_click_rad': vr, 'cal_in': cal.raw_value,
                                          'td_in': td.raw_value, 'mag': mag, 'drop_rad': drop.raw_value, 'wind_rad': wind.raw_value,
                                          'observed': [r.vertical, r.horizontal], 'expected': [ev, eh]}))
     pbc.PreferredUnits.defaults()
